@@ -127,11 +127,16 @@ func streamAead(c *ctx) {
 	// nonce lengths and key sizes
 	for _, alg := range algs {
 		e, _ := realEncryptor(alg, make([]byte, symKeySize[alg]))
-		for l := 0; l <= 17; l++ {
+		for l := 0; l <= 40; l++ { // incl. 8 (original ChaCha), 16 (a block), 24 (XChaCha20), 32
 			ct, err := e.Encrypt(make([]byte, l), []byte("p"), nil)
 			c.addCase(fmt.Sprintf("AEnc %d %s %s %s %s %s %s", alg, qHex(make([]byte, symKeySize[alg])), qHex(make([]byte, l)), qHex([]byte("p")), qHex(nil), qB(err == nil), qHex(ct)), fmt.Sprintf("aead-nonce|alg=%d|len=%d => ok=%v", alg, l, err == nil))
 			if (err == nil) != (l == e.NonceSize()) {
 				c.fail(failure{Op: "aead", What: "nonce of another length", Input: fmt.Sprintf("alg=%d ivlen=%d", alg, l), Observed: fmt.Sprint(err), Expected: "error iff the length differs", Theorem: "C12_nonce_len_refused"})
+			}
+			pt, derr := e.Decrypt(make([]byte, l), make([]byte, 40), nil)
+			c.addCase(fmt.Sprintf("ADec %d %s %s %s %s %s %s", alg, qHex(make([]byte, symKeySize[alg])), qHex(make([]byte, l)), qHex(make([]byte, 40)), qHex(nil), qB(derr == nil), qHex(pt)), fmt.Sprintf("aead-nonce-dec|alg=%d|len=%d => ok=%v", alg, l, derr == nil))
+			if derr == nil {
+				c.fail(failure{Op: "aead", What: "decryption of an all-zero ciphertext succeeded", Input: fmt.Sprintf("alg=%d ivlen=%d", alg, l), Observed: "plaintext", Expected: "error", Theorem: "C12_nonce_len_refused"})
 			}
 		}
 		for l := 0; l <= 40; l++ {
